@@ -94,6 +94,14 @@ def gen_cases(rng, tier):
         for u, v in pairs:
             ops.append(["ueq", u, v])
             ops.append(["ucmp", rng.choice(["lt", "le", "gt", "ge"]), u, v])
+        # units of different types do not compare (== is False); units of a
+        # type without reference unit have no scale to compare by
+        allu = list(ctx.units)
+        for _ in range(8):
+            u, v = rng.choice(allu), rng.choice(allu)
+            if ctx.units[u]["cls"] != ctx.units[v]["cls"] or ctx.units[u]["scale"] is None:
+                ops.append(["ueq", u, v])
+                ops.append(["ucmp", rng.choice(["lt", "le", "gt", "ge"]), u, v])
         cases.append(_qty.case_of(ctx, ops, ["compare"]))
     return cases
 
@@ -121,12 +129,24 @@ def oracle(case, impl):
                 if ctx.units[u]["scale"] < 0 or ctx.units[v]["scale"] < 0:
                     site = "cmp:negative-scale"
                 fails.append({"site": site, "msg": f"{o} -> {out}, reference values {ra} vs {rb}"})
+        elif o[0] == "ucmp" and ctx.units[o[2]]["cls"] != ctx.units[o[3]]["cls"]:
+            if out != "err IncompatibleUnitsError":
+                fails.append({"site": "cmp:units-types", "msg": f"{o} -> {out}"})
+        elif o[0] == "ucmp" and (ctx.units[o[2]]["scale"] is None or ctx.units[o[3]]["scale"] is None):
+            if out != "err UnitConversionError":
+                fails.append({"site": "cmp:units-no-scale", "msg": f"{o} -> {out}"})
         elif o[0] == "ucmp":
             su, sv = ctx.units[o[2]]["scale"], ctx.units[o[3]]["scale"]
             exp = "ok " + ("true" if _rel(o[1], su, sv) else "false")
             if out != exp:
                 site = "cmp:negative-scale" if su < 0 or sv < 0 else "cmp:units-order"
                 fails.append({"site": site, "msg": f"{o} -> {out}, scales {su} vs {sv}"})
+        elif o[0] == "ueq" and ctx.units[o[1]]["cls"] != ctx.units[o[2]]["cls"]:
+            if out != "ok false":
+                fails.append({"site": "cmp:units-types", "msg": f"{o} -> {out}"})
+        elif o[0] == "ueq" and ctx.units[o[1]]["scale"] is None:
+            if out != ("ok true" if o[1] == o[2] else "ok false"):
+                fails.append({"site": "cmp:units-no-scale", "msg": f"{o} -> {out}"})
         elif o[0] == "ueq":
             exp = "ok " + ("true" if ctx.units[o[1]]["scale"] == ctx.units[o[2]]["scale"] else "false")
             if out != exp:
